@@ -9,12 +9,81 @@ import (
 )
 
 // Records, for (*AgentIPC).filterMembers in cmd/serf/command/agent/ipc.go:
-//   - every regexp.Compile call: it must have the shape regexp.Compile(fmt.Sprintf(<string literal>, <ident>));
-//     the format string and the identifier are recorded (the anchoring template per filter);
+//   - every place a filter expression is compiled ("site"): either
+//     compileAnchored(<ident>)                               → (ident, "compileAnchored")
+//     regexp.Compile(fmt.Sprintf(<string literal>, <ident>)) → (ident, "Sprintf:<format>")   (the pre-990828f shape: paste, then compile)
+//     Any other use of package regexp in filterMembers is an error;
+//   - the body of the helper compileAnchored(expr), which must be exactly
+//     if _, err := regexp.Compile(<param>); err != nil { return nil, err }   → "validate:<param>"
+//     return regexp.Compile(fmt.Sprintf(<string literal>, <param>))            → "wrap:<format>:<param>"
+//     (validate-alone, then wrap); any other statement is an error. No helper: no steps;
 //   - the skip conditions of the member loop (every `if` whose body is a `continue`), as source text;
 //   - the statement that appends to the result.
-//
-// Any other use of package regexp in the function is an error.
+
+// sprintfTemplate recognises regexp.Compile(fmt.Sprintf(<lit>, <ident>)).
+func sprintfTemplate(x *ast.CallExpr) (format, arg string, ok bool) {
+	if exprString(x.Fun) != "regexp.Compile" || len(x.Args) != 1 {
+		return "", "", false
+	}
+	sp, ok := x.Args[0].(*ast.CallExpr)
+	if !ok || exprString(sp.Fun) != "fmt.Sprintf" || len(sp.Args) != 2 {
+		return "", "", false
+	}
+	lit, ok1 := sp.Args[0].(*ast.BasicLit)
+	id, ok2 := sp.Args[1].(*ast.Ident)
+	if !ok1 || !ok2 || lit.Kind != token.STRING {
+		return "", "", false
+	}
+	s, err := strconv.Unquote(lit.Value)
+	if err != nil {
+		return "", "", false
+	}
+	return s, id.Name, true
+}
+
+func helperSteps(fd *ast.FuncDecl) ([]string, error) {
+	if sig := exprString(fd.Type); sig != "func(expr string) (*regexp.Regexp, error)" {
+		return nil, fmt.Errorf("compileAnchored signature %s", sig)
+	}
+	var steps []string
+	for _, st := range fd.Body.List {
+		switch s := st.(type) {
+		case *ast.IfStmt:
+			// if _, err := regexp.Compile(<param>); err != nil { return nil, err }
+			as, ok := s.Init.(*ast.AssignStmt)
+			if !ok || s.Else != nil || len(as.Lhs) != 2 || len(as.Rhs) != 1 || exprString(as.Lhs[0]) != "_" || exprString(as.Lhs[1]) != "err" ||
+				exprString(s.Cond) != "err != nil" || len(s.Body.List) != 1 || exprString(s.Body.List[0]) != "return nil, err" {
+				return nil, fmt.Errorf("compileAnchored: unsupported statement %s", exprString(s))
+			}
+			c, ok := as.Rhs[0].(*ast.CallExpr)
+			if !ok || exprString(c.Fun) != "regexp.Compile" || len(c.Args) != 1 {
+				return nil, fmt.Errorf("compileAnchored: unsupported validation %s", exprString(as))
+			}
+			id, ok := c.Args[0].(*ast.Ident)
+			if !ok {
+				return nil, fmt.Errorf("compileAnchored: validation of a non-identifier %s", exprString(c))
+			}
+			steps = append(steps, "validate:"+id.Name)
+		case *ast.ReturnStmt:
+			if len(s.Results) != 1 {
+				return nil, fmt.Errorf("compileAnchored: unsupported return %s", exprString(s))
+			}
+			c, ok := s.Results[0].(*ast.CallExpr)
+			if !ok {
+				return nil, fmt.Errorf("compileAnchored: unsupported return %s", exprString(s))
+			}
+			format, arg, ok := sprintfTemplate(c)
+			if !ok {
+				return nil, fmt.Errorf("compileAnchored: unsupported return %s", exprString(s))
+			}
+			steps = append(steps, "wrap:"+format+":"+arg)
+		default:
+			return nil, fmt.Errorf("compileAnchored: unsupported statement %s", exprString(st))
+		}
+	}
+	return steps, nil
+}
+
 func genAnchorTemplate(repo string) (string, error) {
 	_, f, err := parseFile(repo + "/cmd/serf/command/agent/ipc.go")
 	if err != nil {
@@ -24,36 +93,34 @@ func genAnchorTemplate(repo string) (string, error) {
 	if fd == nil {
 		return "", fmt.Errorf("filterMembers not found")
 	}
-	type tpl struct{ arg, format string }
-	var tpls []tpl
+	type site struct{ arg, how string }
+	var sites []site
 	var guards, appends []string
 	var bad error
 	ast.Inspect(fd.Body, func(n ast.Node) bool {
 		switch x := n.(type) {
 		case *ast.CallExpr:
 			fn := exprString(x.Fun)
+			if fn == "compileAnchored" {
+				if len(x.Args) != 1 {
+					bad = fmt.Errorf("unsupported call %s", exprString(x))
+					return false
+				}
+				id, ok := x.Args[0].(*ast.Ident)
+				if !ok {
+					bad = fmt.Errorf("compileAnchored of a non-identifier: %s", exprString(x))
+					return false
+				}
+				sites = append(sites, site{id.Name, "compileAnchored"})
+			}
 			if strings.HasPrefix(fn, "regexp.") {
-				if fn != "regexp.Compile" || len(x.Args) != 1 {
+				format, arg, ok := sprintfTemplate(x)
+				if !ok {
 					bad = fmt.Errorf("unsupported use of package regexp: %s", exprString(x))
 					return false
 				}
-				sp, ok := x.Args[0].(*ast.CallExpr)
-				if !ok || exprString(sp.Fun) != "fmt.Sprintf" || len(sp.Args) != 2 {
-					bad = fmt.Errorf("regexp.Compile argument is not fmt.Sprintf(format, x): %s", exprString(x))
-					return false
-				}
-				lit, ok := sp.Args[0].(*ast.BasicLit)
-				id, ok2 := sp.Args[1].(*ast.Ident)
-				if !ok || !ok2 || lit.Kind != token.STRING {
-					bad = fmt.Errorf("unsupported Sprintf arguments: %s", exprString(sp))
-					return false
-				}
-				s, err := strconv.Unquote(lit.Value)
-				if err != nil {
-					bad = err
-					return false
-				}
-				tpls = append(tpls, tpl{id.Name, s})
+				sites = append(sites, site{arg, "Sprintf:" + format})
+				return false
 			}
 			if isIdent(x.Fun, "append") && len(x.Args) > 0 && isIdent(x.Args[0], "result") {
 				appends = append(appends, exprString(x))
@@ -70,35 +137,47 @@ func genAnchorTemplate(repo string) (string, error) {
 	if bad != nil {
 		return "", bad
 	}
-	if len(tpls) == 0 {
-		return "", fmt.Errorf("no regexp.Compile in filterMembers")
+	if len(sites) == 0 {
+		return "", fmt.Errorf("no filter expression is compiled in filterMembers")
+	}
+	var steps []string
+	if h := findFunc(f, "", "compileAnchored"); h != nil {
+		steps, err = helperSteps(h)
+		if err != nil {
+			return "", err
+		}
+	} else {
+		for _, s := range sites {
+			if s.how == "compileAnchored" {
+				return "", fmt.Errorf("compileAnchored is called but not declared in ipc.go")
+			}
+		}
+	}
+	q := func(l []string) string {
+		var o []string
+		for _, s := range l {
+			o = append(o, fmt.Sprintf("%q", s))
+		}
+		return "[" + strings.Join(o, ", ") + "]"
 	}
 	var b strings.Builder
-	b.WriteString("-- GENERATED by /verif/extract from /repo/cmd/serf/command/agent/ipc.go (filterMembers) — do not edit.\n")
+	b.WriteString("-- GENERATED by /verif/extract from /repo/cmd/serf/command/agent/ipc.go (filterMembers, compileAnchored) — do not edit.\n")
 	b.WriteString("namespace SerfModel.Gen.AnchorTemplate\n\n")
-	b.WriteString("/-- every `regexp.Compile(fmt.Sprintf(format, x))` in `filterMembers`: (x, format) -/\n")
-	b.WriteString("def templates : List (String × String) := [")
-	for i, t := range tpls {
+	b.WriteString("/-- every place `filterMembers` compiles a filter expression: (argument, how) with how =\n`compileAnchored` (the helper) or `Sprintf:<format>` (pasted into the format and compiled directly) -/\n")
+	b.WriteString("def sites : List (String × String) := [")
+	for i, s := range sites {
 		if i > 0 {
 			b.WriteString(", ")
 		}
-		fmt.Fprintf(&b, "(%q, %q)", t.arg, t.format)
+		fmt.Fprintf(&b, "(%q, %q)", s.arg, s.how)
 	}
-	b.WriteString("]\n\n/-- the conditions under which the member loop skips a member -/\ndef guards : List String := [")
-	for i, g := range guards {
-		if i > 0 {
-			b.WriteString(", ")
-		}
-		fmt.Fprintf(&b, "%q", g)
-	}
-	b.WriteString("]\n\n/-- how a member that passed every guard is kept -/\ndef appends : List String := [")
-	for i, g := range appends {
-		if i > 0 {
-			b.WriteString(", ")
-		}
-		fmt.Fprintf(&b, "%q", g)
-	}
-	b.WriteString("]\n\nend SerfModel.Gen.AnchorTemplate\n")
+	b.WriteString("]\n\n/-- the body of `compileAnchored`, statement by statement: `validate:<x>` = `regexp.Compile(x)` alone,\nits error returned; `wrap:<format>:<x>` = return `regexp.Compile(fmt.Sprintf(format, x))` -/\n")
+	fmt.Fprintf(&b, "def helperSteps : List String := %s\n", q(steps))
+	b.WriteString("\n/-- the conditions under which the member loop skips a member -/\n")
+	fmt.Fprintf(&b, "def guards : List String := %s\n", q(guards))
+	b.WriteString("\n/-- how a member that passed every guard is kept -/\n")
+	fmt.Fprintf(&b, "def appends : List String := %s\n", q(appends))
+	b.WriteString("\nend SerfModel.Gen.AnchorTemplate\n")
 	return b.String(), nil
 }
 
